@@ -2,6 +2,7 @@
 package c16
 
 import (
+	"context"
 	"strconv"
 
 	"bytes"
@@ -906,3 +907,91 @@ var specIdle = pbt.Register(pbt.Spec[IdleCase]{
 })
 
 func TestIdleFlushFollowsConfig(t *testing.T) { specIdle.Check(t) }
+
+// ---- the owner stops the sender through the context it gave it ------------------------------------------------
+// "a batch is flushed once ... the sender is stopped": the only handle an owner of the GetInstance sender has is the
+// context (and cancel function) passed at creation. Every way of passing it must work: cancelling it ends the run loop
+// and what was pending is emitted. Verdict from the goroutine list (run loop gone) with a 30 s bound; the loop notices
+// the cancellation at its next turn, i.e. within one waiting time (5 s built in).
+
+var sweepOwnerStop = pbt.RegisterSweep(pbt.Sweep{Prop: "C16", Name: "owner-stops-through-context",
+	Rule: "exhaustive over the ways an owner can pass its context to GetInstance (queue mode, waiting time 60 ms through ApplyConfig): WithContext(ctx, cancel) stopped by cancel() | WithContext(ctx, nil) stopped by cancelling ctx | WithContext(child, cancelChild) stopped by cancelling the parent | no context, stopped through the hook; one or three records are added and, once the run loop has taken them over from its queue, the sender is stopped: within 30 s the run loop has ended and every record was emitted exactly once, in order; non-trivial = all",
+	N:    4,
+	Run: func(i uint64) (bool, error) {
+		variant, nrec := int(i%4), 1+2*int(i%2)
+		cl := &recClient{retain: true}
+		zip.ResetInstanceForVerif()
+		defer zip.ResetInstanceForVerif()
+		for t0 := time.Now(); runLoopAlive() && time.Since(t0) < 30*time.Second; {
+			time.Sleep(20 * time.Millisecond) // a sender of an earlier case that is about to exit
+		}
+		opts := []zip.ZipSendProxyThreadOption{zip.WithTcpClient(cl), zip.WithUseQueue()}
+		parent, cancelParent := context.WithCancel(context.Background())
+		defer cancelParent()
+		var stop func()
+		var how string
+		switch variant {
+		case 0:
+			ctx, cancel := context.WithCancel(parent)
+			opts = append(opts, zip.WithContext(ctx, cancel))
+			stop, how = cancel, "WithContext(ctx, cancel), cancel() called"
+		case 1:
+			ctx, cancel := context.WithCancel(parent)
+			opts = append(opts, zip.WithContext(ctx, nil))
+			stop, how = cancel, "WithContext(ctx, nil), the owner cancelled ctx"
+		case 2:
+			ctx, cancel := context.WithCancel(parent)
+			opts = append(opts, zip.WithContext(ctx, cancel))
+			stop, how = cancelParent, "WithContext(child, cancelChild), the owner cancelled the parent context"
+		}
+		z := zip.GetInstance(opts...)
+		z.ApplyConfig(settingsConf(64*1024, 60, 100)) // a short waiting time, so that the loop comes round often
+		if variant == 3 {
+			stop, how = z.StopForVerif, "no context given, stopped through the sender's own cancel function"
+		}
+		var want [][]byte
+		for k := 0; k < nrec; k++ {
+			p := mkRecord(Rec{Content: 40 + k, Seed: uint64(i*10) + uint64(k)}, 1_700_000_000_000+int64(k), int64(k+1))
+			want = append(want, encodeRec(p))
+			z.Add(p)
+		}
+		// the promise is about the batch: the records must have been taken over from the queue (the loop polls it)
+		for t0 := time.Now(); z.Queue.Size() > 0; {
+			if time.Since(t0) > 30*time.Second {
+				return true, fmt.Errorf("%s: the run loop has not taken %d records from its queue within 30 s", how, nrec)
+			}
+			time.Sleep(5 * time.Millisecond)
+		}
+		time.Sleep(50 * time.Millisecond)
+		stop()
+		t0 := time.Now()
+		for runLoopAlive() {
+			if time.Since(t0) > 30*time.Second {
+				return true, fmt.Errorf("%s: 30 s later the sender's run loop is still running (%d packs emitted so far)", how, cl.count())
+			}
+			time.Sleep(10 * time.Millisecond)
+		}
+		cl.mu.Lock()
+		defer cl.mu.Unlock()
+		var got [][]byte
+		for pi, snap := range cl.snapshot {
+			recs, _, err := decodePayload(pack.ToPack(append([]byte(nil), snap...)).(*pack.ZipPack))
+			if err != nil {
+				return true, fmt.Errorf("%s: emitted pack %d: %v", how, pi, err)
+			}
+			got = append(got, recs...)
+		}
+		if len(got) != len(want) {
+			return true, fmt.Errorf("%s: the run loop has ended; %d records were added before the stop, %d were emitted", how, len(want), len(got))
+		}
+		for k := range want {
+			if !bytes.Equal(got[k], want[k]) {
+				return true, fmt.Errorf("%s: emitted record %d is not the record added %d-th", how, k, k)
+			}
+		}
+		return true, nil
+	},
+	Show: func(i uint64) interface{} { return map[string]interface{}{"variant": i % 4, "records": 1 + 2*(i%2)} },
+})
+
+func TestOwnerStopsThroughContext(t *testing.T) { sweepOwnerStop.Check(t, 1) }
